@@ -76,5 +76,27 @@ PROPS["C04"] = dict(
     assumptions=["a data race report or a crash of the test process counts as a violation", "20 s without a queued response being decoded counts as a lost response"],
 )
 
+PROPS["C09"] = dict(
+    pkg="c09", level="exploration",
+    rule="generated FLV files (flags, tag type bytes, boundary timestamps and body sizes) muxed by the library and by an independent FLV v1 writer, compared byte for byte, checked by a strict parser, "
+         "and demuxed by the library through segmented readers; per-check rules under coverage.checks",
+    quick=dict(timeout=600), thorough=dict(shards=16, timeout=3000),
+    technique="property-based testing (rapid): round trip + byte-exact differential against an independent FLV v1 writer/strict parser, segmented reads",
+    level_text="Random exploration with boundary-biased sizes/timestamps and shrinking; the 2^24-1 body size is only drawn in the thorough tier.",
+    level_note="Trusts internal/ref/flvref (FLV v1 writer and strict parser written from the Adobe specification).",
+    assumptions=["internal/ref/flvref follows video_file_format_spec_v10 Annex E"],
+)
+
+PROPS["C10"] = dict(
+    pkg="c10", level="exploration",
+    rule="FLV audio/video frames enumerated over the first byte and trait bytes (Opus flag subsets, defined rates, level boundaries) plus rapid-generated frames and canonical tag bodies; "
+         "oracles: decode(encode(f))==f, first-byte fields, byte layout written from FLV E.4.2/E.4.3, encode(decode(b))==b, rate-code table; per-check rules under coverage.checks",
+    quick=dict(timeout=600), thorough=dict(shards=16, timeout=3000),
+    technique="exhaustive enumeration of header/trait bytes + property-based testing (rapid) of frames and canonical bodies; round-trip and independent layout oracle",
+    level_text="Header and trait bytes are enumerated completely (exhaustive checks listed in the evidence); payloads and canonical bodies are sampled.",
+    level_note="Domain excludes what the packagers document as too short (1-byte audio bodies, non-AVC/HEVC video bodies under 5 bytes), Opus frames carrying a rate without the rate flag, and negative composition times.",
+    assumptions=["FLV E.4.2/E.4.3 layout as coded in c10_test.go (refAudioBody / video layout)"],
+)
+
 NOT_APPLICABLE = {}
 HOOK_COMMITS = []
